@@ -10,3 +10,4 @@ for s in $1; do for c in $2; do
   echo "seed=$s $c exit=$rc wall=$(( $(date +%s) - t0 ))s $(echo "$out" | grep -E '^(HELD|VIOLATION|INCONCLUSIVE)' | head -2 | tr '\n' ' ' | cut -c1-200)"
   [ $rc -ne 0 ] && echo "$out" | grep -E "violated|INCONCLUSIVE" | head -5 | cut -c1-300
 done; done
+exit 0
